@@ -4,7 +4,7 @@ Fan-out multiplicities over schedules are not decided; the ordering table and
 its readers, and the structural clauses, are.
 """
 import itertools
-from ..core import (AnalysisBroken, Inliner, canon, strip, last_member, must_pass, relpath, norm_cond, walk, forward)
+from ..core import (names_of, same_value, AnalysisBroken, Inliner, canon, strip, last_member, must_pass, relpath, norm_cond, walk, forward)
 from ..analyses import (is_call, holding, path_to, describe, exits_of, callback_kind, loops, innermost_loop,
                         locksets, held, SIGBLOCK, must_pass_from_block, delta_analysis)
 from .. import interp, cmprules
